@@ -1,8 +1,10 @@
-(* C16 -- layout cost.  Level `other`: NO theorem of this file states a count or a bound.  The three statements below are the
+(* C16 -- layout cost.  Level `other`.  [This header describes the FIRST THREE statements (waves 1-5): none of them states a count or
+   a bound.  The real-cache statements further down (module RealCache and after: the C16_real theorems) do have evaluation counters and state
+   per-pass accounting identities and, for chains of block containers, a computed bound -- see their own comments.]  The three statements below are the
    accounting identities a bound would be built from (engine skeleton, every algorithm): a hit evaluates nothing; an evaluated
    query is answered from the cache afterwards; in the EXACT-KEY memo a size entry stays retrievable whatever is stored later
    (some entry answers it: the conclusion is `exists o2`, not "the same o"; a final-layout entry IS displaced by any later
-   PerformLayout store).  There is no evaluation counter in the model and no theorem "each (node, input) is evaluated at most
+   PerformLayout store).  There is no evaluation counter in the exact-key model and no theorem "each (node, input) is evaluated at most
    once" (audit, wave 5c: earlier comments suggested one).  The numeric bound of the property (64 x node count; no growth with
    chain depth) is a fact about the query sequences of the real flex/grid/block algorithms interacting with the 9 lossy cache
    slots -- NOT the exact-key memo these identities are about; it is explored on the implementation, not proved, and it does not
@@ -132,8 +134,8 @@ Proof. intros. apply gmemo_counters_irrelevant. assumption. Qed.
    never measures, a leaf at most once per evaluation (the log of Leaf.compute_leaf_layout, C19's kernel) -- for a whole
    compute_layout (compute_root_layout on the tree with the counters of the pass reset) *)
 Theorem C16_real_block_pass_counts :
-  forall (T : Type) (NT : Num T) (abs_child : @AbsChild T) f (t : @brtree T) avail t',
-    blr_compute_root block_pre abs_child f (greset _ _ _ t) avail = Some t' ->
+  forall (T : Type) (NT : Num T) (teq : T -> T -> bool) (abs_child : @AbsChild T) f (t : @brtree T) avail t',
+    blr_compute_root teq block_pre abs_child f (greset _ _ _ t) avail = Some t' ->
     Forall (fun n => n_query n = n_hit n + n_eval n /\ n_lossy n <= n_hit n /\ n_meas n <= n_eval n)%N (gcounts _ _ _ t').
 Proof. intros. eapply blr_pass_acct; eauto. Qed.
 
